@@ -7,6 +7,7 @@ package simexec
 import (
 	"context"
 	"errors"
+	"os"
 	"fmt"
 	"io"
 	"sync"
@@ -21,6 +22,7 @@ type Behaviour struct {
 	Hang      bool          // never exits unless killed
 	ExitAfter time.Duration // otherwise exits after this long
 	ExitCode  int
+	IgnoreTerm bool // SIGTERM has no effect (a hook that traps it); only SIGKILL ends it
 }
 
 type Proc struct {
@@ -34,6 +36,7 @@ type Proc struct {
 	Exited   bool
 	ExitAt   time.Time
 	StartFailed bool
+	Signals  []string // catchable signals delivered without effect
 	Step     int // scheduler step of the start (set by the harness through OnStart)
 	kill     chan struct{}
 	b        Behaviour
@@ -112,7 +115,23 @@ func (p *Process) Kill() error {
 	}
 	return nil
 }
-func (p *Process) Signal(sig any) error { return p.Kill() }
+// Signal: SIGKILL always kills; SIGTERM / SIGINT / SIGHUP kill unless the process ignores
+// them (Behaviour.IgnoreTerm); anything else is delivered without effect.
+func (p *Process) Signal(sig os.Signal) error {
+	if sig == syscall.SIGKILL || sig == os.Kill {
+		return p.Kill()
+	}
+	if sig == syscall.SIGTERM || sig == syscall.SIGINT || sig == syscall.SIGHUP || sig == os.Interrupt {
+		if p.p.b.IgnoreTerm {
+			p.w.mu.Lock()
+			p.p.Signals = append(p.p.Signals, sig.String())
+			p.w.mu.Unlock()
+			return nil
+		}
+		return p.Kill()
+	}
+	return nil
+}
 func (p *Process) Release() error       { return nil }
 
 type Cmd struct {
